@@ -4,6 +4,7 @@
    Vocabulary: Edit/Kustfile.v (text side: comment scanner, marshal), Edit/Kust.v (the record =
    the in-memory model), Edit/Fix.v (FixKustomization), Edit/Ops.v (one function per sub-command),
    Edit/Cmd.v (one invocation on a file: Read -> command -> Write). *)
+From KV Require Import Edit.YamlView Edit.YamlViewProofs.
 From KV Require Import Edit.Cmd Edit.KustfileProofs Edit.AssocProofs Edit.OpsProofs Edit.CmdProofs Edit.LawsProofs.
 Local Open Scope list_scope.
 
@@ -32,7 +33,7 @@ Print Assumptions C17_failed_command_writes_nothing.
 (* ---- frame: a command changes only the field(s) it addresses (all 27 sub-commands) ---- *)
 Theorem C17_frame :
   forall e k o k' n,
-    apply_op e (Ok k) o = Ok (Some k') -> ~ In n (addressed o) -> get n k' = get n k.
+    apply_op e (Ok k) o = Ok (Some k') -> ~ In n (addressed o) -> Kust.get n k' = Kust.get n k.
 Proof. exact apply_op_frame. Qed.
 Print Assumptions C17_frame.
 
@@ -177,6 +178,61 @@ Theorem C17_former_witness_kept :
                     (marshal (parse_commented_fields witness_file) (trailing_kept witness_file) render).
 Proof. exact (proj2 (proj2 witness_kept)). Qed.
 Print Assumptions C17_former_witness_kept.
+
+(* ---- comments as YAML reads them, and the exact guard ----
+   C17_comments_kept above is about the lines the (per-line) scanner takes for comments.  In the YAML view
+   (Edit/YamlView.v: comment-looking lines OUTSIDE block scalars) the comments survive a rewrite exactly when
+   neither of the two block-scalar findings applies:
+     guard 1 = no comment-looking line inside a block scalar of the file
+               (complement of finding comment-line-absorbed-into-block-scalar),
+     guard 2 = every comment the rewrite relocates is plain, i.e. blank or '#' in column 0
+               (complement of finding indented-comment-relocated-behind-block-scalar),
+   plus clean renderings (what yaml.Marshal writes: column-0 header, comment-looking lines only inside block
+   scalars, no trailing blank line) and a newline-terminated file.  The two witnesses show that each guard is
+   needed: they are the corpus inputs of the two findings, evaluated on the model. *)
+Theorem C17_yaml_comments_kept :
+  forall (R : kust -> string -> list line) f k,
+    f_tail f = None ->
+    ~ has_scalar_comment_line (f_lines f) ->
+    plain_comments (kept_comments (parse_commented_fields f) ++ trailing_kept f) ->
+    (forall n, clean_rendering (render_field R k n)) ->
+    yaml_comment_lines (f_lines (write_file R f k)) = yaml_comment_lines (f_lines f).
+Proof. exact yaml_comments_kept. Qed.
+Print Assumptions C17_yaml_comments_kept.
+
+(* without guard 1 the YAML comments of the result are still exactly what the scanner collected *)
+Theorem C17_yaml_comments_of_write :
+  forall (R : kust -> string -> list line) f k,
+    plain_comments (kept_comments (parse_commented_fields f) ++ trailing_kept f) ->
+    (forall n, clean_rendering (render_field R k n)) ->
+    yaml_comment_lines (f_lines (write_file R f k)) = comment_lines f.
+Proof. exact yaml_comments_of_write. Qed.
+Print Assumptions C17_yaml_comments_of_write.
+
+(* finding comment-line-absorbed-into-block-scalar on the model: guard 1 fails, the renderings are clean; the
+   comment-looking last line of the scalar is written back behind the scalar and becomes one more line of it *)
+Theorem C17_absorbed_refuted :
+  has_scalar_comment_line (f_lines w_f1) /\
+  (forall n, clean_rendering (render_field w_R1 w_k1 n)) /\
+  f_lines (write_file w_R1 w_f1 w_k1) =
+    ["patches:"; "- patch: |-"; "    a: b"; "    # last"; "    # last"; "namespace: x"] /\
+  yaml_comment_lines (f_lines (write_file w_R1 w_f1 w_k1)) = [] /\
+  comment_lines w_f1 = ["    # last"].
+Proof. exact absorbed_witness. Qed.
+Print Assumptions C17_absorbed_refuted.
+
+(* finding indented-comment-relocated-behind-block-scalar on the model: guard 1 holds, guard 2 fails; the
+   indented comment lands behind a block scalar and is no comment any more *)
+Theorem C17_relocated_refuted :
+  ~ has_scalar_comment_line (f_lines w_f2) /\
+  (forall n, clean_rendering (render_field w_R2 w_k2 n)) /\
+  comment_lines w_f2 = ["    # note"] /\
+  f_lines (write_file w_R2 w_f2 w_k2) =
+    ["patches:"; "- patch: |-"; "    a: b"; "    c: d"; "    # note";
+     "configMapGenerator:"; "- literals:"; "  - a=b"; "  name: x"] /\
+  yaml_comment_lines (f_lines (write_file w_R2 w_f2 w_k2)) = [].
+Proof. exact relocated_witness. Qed.
+Print Assumptions C17_relocated_refuted.
 
 (* ---- obligations over the tables generated from /repo (Gen/KustFields.v) ---- *)
 Theorem Gen_every_field_ordered_or_known_gap :
